@@ -363,3 +363,9 @@ def hexes_close(hexes, fracs, tol=TOL_T):
         if h == 'nan' or not frac_close(float.fromhex(h), q, tol):
             return False
     return True
+
+
+def emm_entry(trajs):
+    """model entry for estimate_markov_model: 101 also evaluates the nth-based specification form of the
+    counts (quadratic in the length); beyond 3000 frames 102 returns the code-shaped counts, proved equal"""
+    return 101 if sum(len(t) for t in trajs) <= 3000 else 102
